@@ -462,6 +462,38 @@ func init() {
 				r.Dist["selfinclude:"+res.ErrStr()]++
 			}
 		}
+		// the fragment of the termination theorems (Props/C13.lean), Go against the model: include graphs with cycles and
+		// self-includes, counter loops with literal bounds in both directions (nested, around includes), range loops —
+		// the driver runs the model with the PROVED fuel bound of the registry (TermIncl.fuelFor), so a wrong bound shows
+		// as `err:outoffuel` against Go's result; the watchdog of the session runner sees a hang on Go's side
+		{
+			var tcases []*RCase
+			mk := func(meta string, tpls ...string) {
+				c := &RCase{Meta: map[string]any{"termination-fragment": meta}}
+				for i := 0; i+1 < len(tpls); i += 2 {
+					c.Tpls = append(c.Tpls, TplDef{Key: tpls[i], Src: tpls[i+1], KeepFmt: true})
+				}
+				c.Ops = []SOp{{Kind: "strs", Name: "lst", Val: []string{"p", "q", "r"}}, {Kind: "static", Name: "v", Val: int64(1)}}
+				for i := 0; i+1 < len(tpls); i += 2 {
+					c.Ops = append(c.Ops, SOp{Kind: "render", Key: tpls[i]})
+				}
+				c.Ops = append(c.Ops, SOp{Kind: "render", Key: tpls[0], FailAt: 3}, SOp{Kind: "render", Key: tpls[0]})
+				tcases = append(tcases, c)
+				r.Dist["termination-fragment"]++
+			}
+			mk("self-include", "ts", `a{% include ts %}b`)
+			mk("self-include-after-loop", "ts", `{% for _, x := range lst sep , %}{%= x %}{% endfor %}|{% include ts %}`)
+			mk("cycle-of-three", "ta", `A{% include tb %}`, "tb", `B{% include tc %}`, "tc", `C{% if v == 1 %}{% include ta %}{% endif %}`)
+			mk("fallback-list-cycle", "ta", `A{% include nosuch tb %}`, "tb", `B{% . nosuch ta %}`)
+			mk("literal-loops-up-down", "t", `{% for i := 0; i < 3; i++ sep ; %}{% for j := 5; j > 2; j-- %}{%= i %}{%= j %}{% endfor %}{% endfor %}`)
+			mk("literal-loops-all-operators", "t", `{% for i := 0; i <= 2; i++ %}a{% endfor %}{% for i := 2; i >= 0; i-- %}b{% endfor %}{% for i := 0; i != 3; i++ %}c{% endfor %}{% for i := 3; i != 0; i-- %}d{% endfor %}`+
+				`{% for i := 5; i < 3; i++ %}never{% else %}f{% endfor %}`)
+			mk("literal-loop-around-include", "t", `{% for i := 0; i < 4; i++ %}[{% include row %}]{% endfor %}`, "row", `{% for j := 2; j > 0; j-- %}{%= j %}{% endfor %}{% for _, x := range lst %}{%= x %}{% endfor %}`)
+			mk("loop-break-exit", "t", `{% for i := 0; i < 50; i++ %}{%= i %}{% if i == 2 %}{% break %}{% endif %}{% endfor %}{% for i := 0; i < 50; i++ %}{% if i == 1 %}{% exit %}{% endif %}x{% endfor %}y`)
+			mk("deep-literal-nest", "t", `{% for a := 0; a < 2; a++ %}{% for b := 0; b < 2; b++ %}{% for c := 0; c < 2; c++ %}{% for d := 0; d < 2; d++ %}{% for e := 0; e < 2; e++ %}{%= e %}{% endfor %}{% endfor %}{% endfor %}{% endfor %}{% endfor %}`)
+			mk("hundred-iterations", "t", `{% for i := 0; i < 100; i++ sep , %}{%= i %}{% endfor %}`)
+			runSessions(r, tcases, outputDiffers)
+		}
 		// (b) fuzz: repository templates and generated ones against contexts of unexpected kinds
 		var corpus []string
 		_ = filepath.Walk("/repo/testdata", func(p string, info os.FileInfo, err error) error {
